@@ -170,23 +170,27 @@ def Intersection.cut (P : Id → Bool) (i : Intersection) : Option Intersection 
   if incs.length == 0 then none else
   some { i with incomings := incs, crossings := keepIn P i.crossings }
 
+/-- lanelet.py:1488-1494: the lanelets that pass the filter. -/
+def Net.cutKept (n : Net) (keep : Id → Bool) : List Lanelet := n.lanelets.filter (fun l => keep l.id)
+
+/-- lanelet.py:1482-1555: the new network before `cleanup_lanelet_references`: copies of the kept lanelets, the
+signs / lights they reference, the re-built intersections. -/
+def Net.cutBase (n : Net) (keep : Id → Bool) : Net :=
+  let kept := n.cutKept keep
+  let PL := fun a => (kept.map (·.id)).contains a
+  { lanelets := kept
+    signs := n.signs.filter (fun s => (kept.flatMap (·.signs)).contains s.1)
+    lights := n.lights.filter (fun s => (kept.flatMap (·.lights)).contains s.1)
+    inters := n.inters.filterMap (·.cut PL) }
+
 /-- lanelet.py:1462-1563 `create_from_lanelet_network`. `keep` is the result of the geometric / type filter
-(lanelet.py:1488-1494), computed by the implementation.  A lanelet that references a sign / light the
+(lanelet.py:1488-1494), computed by the implementation.  A kept lanelet that references a sign / light the
 network does not hold makes `add_traffic_sign(None, …)` fail with an `AssertionError`. -/
 def Net.cutOut (n : Net) (keep : Id → Bool) (cleanup : Bool) : Res Net :=
-  let kept := n.lanelets.filter (fun l => keep l.id)
-  let L := kept.map (·.id)
-  let PL := fun a => L.contains a
-  let signIds := kept.flatMap (·.signs)
-  let lightIds := kept.flatMap (·.lights)
-  if !(signIds.all fun a => n.sids.contains a) then .error .assert else
-  if !(lightIds.all fun a => n.tids.contains a) then .error .assert else
-  let n' : Net :=
-    { lanelets := kept
-      signs := n.signs.filter (fun s => signIds.contains s.1)
-      lights := n.lights.filter (fun s => lightIds.contains s.1)
-      inters := n.inters.filterMap (·.cut PL) }
-  .ok (if cleanup then n'.cleanupLaneletRefs else n')
+  let kept := n.cutKept keep
+  if !((kept.flatMap (·.signs)).all fun a => n.sids.contains a) then .error .assert else
+  if !((kept.flatMap (·.lights)).all fun a => n.tids.contains a) then .error .assert else
+  .ok (if cleanup then (n.cutBase keep).cleanupLaneletRefs else n.cutBase keep)
 
 /-- first lanelet with the given id (`find_lanelet_by_id`). -/
 def Net.findLanelet (n : Net) (x : Id) : Option Lanelet := n.lanelets.find? (fun l => l.id == x)
@@ -344,15 +348,21 @@ def Lanelet.stopT (l : Lanelet) : List Id := match l.stop with | some st => st.t
 def Incoming.lrefs (k : Incoming) : List Id := k.inc ++ k.right ++ k.straight ++ k.left
 def Intersection.lrefs (i : Intersection) : List Id := i.crossings ++ i.incomings.flatMap (·.lrefs)
 
+/-- predecessor / successor / adjacency relations name lanelets of the network. -/
+def LanOK (n : Net) : Prop := ∀ l ∈ n.lanelets, ∀ a ∈ l.lrefs, a ∈ n.lids
+/-- lanelet sign references and stop-line sign references name signs of the network. -/
+def SignOK (n : Net) : Prop := ∀ l ∈ n.lanelets, ∀ a ∈ l.signs ++ l.stopS, a ∈ n.sids
+/-- lanelet light references and stop-line light references name lights of the network. -/
+def LightOK (n : Net) : Prop := ∀ l ∈ n.lanelets, ∀ a ∈ l.lights ++ l.stopT, a ∈ n.tids
+/-- intersection incoming / successor / crossing sets name lanelets of the network. -/
+def InterOK (n : Net) : Prop := ∀ i ∈ n.inters, ∀ a ∈ i.lrefs, a ∈ n.lids
+
 /-- No relation of the network mentions an id the network does not hold: predecessor / successor / adjacency,
 intersection incoming / successor / crossing sets, lanelet sign and light references, stop-line references. -/
-def NoDangling (n : Net) : Prop :=
-  (∀ l ∈ n.lanelets, ∀ a ∈ l.lrefs, a ∈ n.lids) ∧
-  (∀ l ∈ n.lanelets, ∀ a ∈ l.signs ++ l.stopS, a ∈ n.sids) ∧
-  (∀ l ∈ n.lanelets, ∀ a ∈ l.lights ++ l.stopT, a ∈ n.tids) ∧
-  (∀ i ∈ n.inters, ∀ a ∈ i.lrefs, a ∈ n.lids)
+def NoDangling (n : Net) : Prop := LanOK n ∧ SignOK n ∧ LightOK n ∧ InterOK n
 
-instance (n : Net) : Decidable (NoDangling n) := by unfold NoDangling; exact inferInstance
+instance (n : Net) : Decidable (NoDangling n) := by
+  unfold NoDangling LanOK SignOK LightOK InterOK; exact inferInstance
 
 /-- The property's precondition: a stop line refers only to signs and lights its lanelet also references. -/
 def Wf (n : Net) : Prop :=
